@@ -46,6 +46,10 @@ func NewParser(srcPath, dstPath string) (*Parser, error) {
 	}
 
 	dstStat, _ := os.Stat(dstPath)
+	if dstStat != nil && os.SameFile(srcStat, dstStat) {
+		// ParseFile below skips the generation target: the setup file would never be read.
+		return nil, logger.Errorf("%v: the output path %v is the setup file itself", srcPath, dstPath)
+	}
 	var parseErr error
 	cfg := &packages.Config{
 		Overlay:    hideStaleOutput(srcPath, srcStat, dstPath, dstStat),
